@@ -337,6 +337,14 @@ def all_in_time(policy, n_frames: int = 3) -> bool:
     return ok
 
 
+def own_echo_lost_only(policy, n_frames: int = 3) -> bool:
+    """everything prompt, except that the sender of the Offer or of the Accept does not hear its own first transmission (its
+    gateway re-sends; the peer heard the first one and answers): nothing of the handshake is lost - three-frame flows only (with the
+    addenda step the re-sent frame and the addenda cross)"""
+    odd = [(k, d) for k, d in policy.items() if d != [0.0]]
+    return n_frames == 3 and len(odd) == 1 and odd[0][0] in ((0, "S"), (1, "R")) and odd[0][1] == []
+
+
 def nothing_lost(policy) -> bool:
     return all(policy.get((i, w), [0.0]) and min(policy.get((i, w), [0.0])) < 2.5 for i in range(4) for w in ("R", "S"))
 
@@ -375,7 +383,7 @@ def score(chk: Check, flow_name, scen, o, rep) -> None:
                     for d, fr in third)
     if competing:
         chk.count("competing_third_party_offer")
-    if who == "both" and not competing and not opts.get("cancel") and not opts.get("refuse") and (all_in_time(policy, n) or (nothing_lost(policy)
+    if who == "both" and not competing and not opts.get("cancel") and not opts.get("refuse") and (all_in_time(policy, n) or own_echo_lost_only(policy, n) or (nothing_lost(policy)
             and (one_late_in_time(policy, n) or not any(d for d in policy.values() if d and min(d) > 0.4)))):
         for k in ("R", "S"):
             if o[k][0] != "ok":
@@ -388,7 +396,7 @@ def score(chk: Check, flow_name, scen, o, rep) -> None:
         if opts.get("no_addenda") and rs_[0] and ws_[0] and rs_[0][:41] == ws_[0][:41]:
             ws_[0] = rs_[0]      # (without the addenda step the library's own Offer does not list the addenda's code: both ends must agree on it)
         if rs_ != ss_ or rs_ != ws_:
-            chk.violation("c20.tuple_mismatch", f"{flow_name}: respondent reports {[strip(x) for x in r]}, supplicant {[strip(x) for x in s]}, expected {want}", rep)
+            chk.violation("c20.tuple_mismatch" + (".own-first-echo-lost" if own_echo_lost_only(policy, n) else ""), f"{flow_name}: respondent reports {[strip(x) for x in r]}, supplicant {[strip(x) for x in s]}, expected {want}", rep)
 
 
 def run(chk: Check) -> None:
@@ -455,6 +463,12 @@ def run(chk: Check) -> None:
                 scenarios.append((lossy, [], "both"))
                 scenarios.append((gen_policy(rnd, rnd.choice(("clean", "repeats"))), [], "both", {"no_addenda": True, "gap": rnd.choice((0.5, 2.0, 12.0))}))
                 scenarios.append((gen_policy(rnd, "clean"), [], "both", {"no_addenda": True}))
+            if rnd.random() < 0.4:
+                # the sender of the Offer / of the Accept does not hear its own first transmission (its gateway sends it again);
+                # the peer heard the first one and answers before that echo: nothing of the handshake is lost
+                deaf = gen_policy(rnd, "clean")
+                deaf[rnd.choice(((0, "S"), (1, "R")))] = []
+                scenarios.append((deaf, [], "both", {"no_addenda": True} if len(FLOWS[flow_name][2]) > 3 else {}))
             scenarios.append((gen_policy(rnd, "clean"), [], "both"))     # a clean attempt must always succeed afterwards
 
             async def body(loop, flow_name=flow_name, scenarios=scenarios):
